@@ -99,7 +99,7 @@ func (k *keyedSession) create() {
 	reportProgress(progress{Sid: s.sid, Step: s.step, Op: op, Trace: tailTrace(s.trace, 12)})
 	if k.t.create != nil {
 		req := newMsg(k.t.create.Input())
-		setStr(req, "name", devName)
+		setStr(req, "name", k.session.reqName())
 		req.Set(payloadField(k.t.create.Input(), k.t.resource), protoreflect.ValueOfMessage(p.ProtoReflect()))
 		out, pm := s.call("Create"+k.t.X, req.Interface())
 		if pm != "" {
@@ -153,7 +153,7 @@ func (k *keyedSession) create() {
 func (k *keyedSession) get(it *item, mask *fieldmaskpb.FieldMask) {
 	s := k.session
 	req := newMsg(k.t.get.Input())
-	setStr(req, "name", devName)
+	setStr(req, "name", k.session.reqName())
 	sp := k.spell(it)
 	setStr(req, k.t.keyField, sp)
 	setMask(req, "read_mask", mask)
@@ -208,7 +208,7 @@ func (k *keyedSession) prepUpdate(it *item) (proto.Message, proto.Message, strin
 	s := k.session
 	p := k.payload(k.spell(it))
 	req := proto.Clone(s.randomExtras()).ProtoReflect()
-	setStr(req, "name", devName)
+	setStr(req, "name", k.session.reqName())
 	req.Set(payloadField(k.t.update.Input(), k.t.resource), protoreflect.ValueOfMessage(p.ProtoReflect()))
 	um := s.randMask(k.t.resource, 50, s.r.Intn(2) == 0)
 	if um != nil && len(um.Paths) == 0 {
@@ -551,7 +551,7 @@ func (k *keyedSession) callDelete(it *item) delRes {
 	reportProgress(progress{Sid: s.sid, Step: s.step, Op: op, Trace: tailTrace(s.trace, 12)})
 	if k.t.del != nil {
 		req := newMsg(k.t.del.Input())
-		setStr(req, "name", devName)
+		setStr(req, "name", k.session.reqName())
 		setStr(req, k.t.keyField, sp)
 		out, pm := s.call("Delete"+k.t.X, req.Interface())
 		if pm != "" {
@@ -642,7 +642,7 @@ func (k *keyedSession) listAll(ghost *item) {
 		return
 	}
 	req := newMsg(k.t.list.Input())
-	setStr(req, "name", devName)
+	setStr(req, "name", k.session.reqName())
 	if s.r.Intn(2) == 0 {
 		setMask(req, "read_mask", s.randMask(k.t.resource, 0, true))
 	}
@@ -695,6 +695,7 @@ func runKeyedSession(t triple, sid sessionID, mon *lib.Monitor) (lines, verdicts
 	s.step = -1
 	extra := rowExtras[t.Row.rowKey()]
 	k.spellFn = extra.Spell
+	s.names = rowNames[t.Row.rowKey()]
 	if extra.Initial != nil {
 		// the model starts with records: each is a register holding the configured value
 		for _, m := range extra.Initial() {
